@@ -615,9 +615,16 @@ package scipipe
 //@ axiom isTrimMod.def: forall m string :: isTrimMod(m) <==> (fullMatch(m, "%[^\n]*") && !matches(m, "s\\/([^\\/]+)\\/([^\\/]*)\\/"))
 // How the code's own tests (substPtn.MatchString, trimEndPtn.MatchString, == "basename", == "dirname") come out for each kind
 // of documented modifier: proved from the two definitions above (pure regular-expression reasoning).
-//@ lemma kinds.subst[C15]: forall m string :: isSubstMod(m) ==> matches(m, "s\\/([^\\/]+)\\/([^\\/]*)\\/") && !matches(m, "%(.*)") && m != "basename" && m != "dirname" && !hasPrefix(m, "%")
-//@ lemma kinds.trim[C15]: forall m string :: isTrimMod(m) ==> matches(m, "%(.*)") && !matches(m, "s\\/([^\\/]+)\\/([^\\/]*)\\/") && m != "basename" && m != "dirname" && hasPrefix(m, "%") && !contains(m, "\n")
-//@ lemma kinds.basename[C15]: !matches("basename", "s\\/([^\\/]+)\\/([^\\/]*)\\/") && !matches("basename", "%(.*)") && !matches("dirname", "s\\/([^\\/]+)\\/([^\\/]*)\\/") && !matches("dirname", "%(.*)")
+//@ lemma kinds.subst.matches[C15]: forall m string :: isSubstMod(m) ==> matches(m, "s\\/([^\\/]+)\\/([^\\/]*)\\/")
+//@ lemma kinds.subst.notrim[C15]: forall m string :: isSubstMod(m) ==> !matches(m, "%(.*)")
+//@ lemma kinds.subst.notword[C15]: forall m string :: isSubstMod(m) ==> m != "basename" && m != "dirname"
+//@ lemma kinds.subst.noprefix[C15]: forall m string :: isSubstMod(m) ==> !hasPrefix(m, "%")
+//@ lemma kinds.trim.matches[C15]: forall m string :: isTrimMod(m) ==> matches(m, "%(.*)")
+//@ lemma kinds.trim.nosubst[C15]: forall m string :: isTrimMod(m) ==> !matches(m, "s\\/([^\\/]+)\\/([^\\/]*)\\/")
+//@ lemma kinds.trim.notword[C15]: forall m string :: isTrimMod(m) ==> m != "basename" && m != "dirname"
+//@ lemma kinds.trim.prefix[C15]: forall m string :: isTrimMod(m) ==> hasPrefix(m, "%")
+//@ lemma kinds.trim.nonewline[C15]: forall m string :: isTrimMod(m) ==> !contains(m, "\n")
+//@ lemma kinds.words[C15]: !matches("basename", "s\\/([^\\/]+)\\/([^\\/]*)\\/") && !matches("basename", "%(.*)") && !matches("dirname", "s\\/([^\\/]+)\\/([^\\/]*)\\/") && !matches("dirname", "%(.*)")
 //@ axiom subst.decomp: forall m string :: isSubstMod(m) ==> m == "s/" + substA(m) + "/" + substB(m) + "/" && len(substA(m)) > 0 && !contains(substA(m), "/") && !contains(substB(m), "/") && !contains(substA(m), "\n") && !contains(substB(m), "\n")
 //@ define docMod(m string) bool = m == "basename" || m == "dirname" || isTrimMod(m) || isSubstMod(m)
 //@ define trimSuffix(x string, s string) string = ite(len(x) > len(s) && hasSuffix(x, s), substr(x, 0, len(x) - len(s)), x)
